@@ -31,9 +31,14 @@ class GW(StoreW):
     def defect_template(self, tmpl, klass_key=True):
         """returns (new template, defect name): exactly one defect at a random position"""
         r = self.r; t = [list(e) for e in tmpl]
-        kind = r.choice(["unknown", "readonly", "wrongsize", "missing", "inconsistent", "nullptr"])
+        kind = r.choice(["unknown", "readonly", "wrongsize", "missing", "inconsistent", "nullptr", "toolong"])
         pos = r.randrange(len(t) + 1)
-        if kind == "unknown":
+        if kind == "toolong":
+            # more entries than the library's internal template buffers hold (32 minus what the call adds itself): every entry is valid - an already present
+            # entry repeated with the same value - so the count alone is the defect (calls without such a limit simply succeed)
+            lab = [e for e in t if e[0] == K.CKA_LABEL] or [t[0]]
+            while len(t) < r.choice([29, 30, 33, 40]): t.insert(r.randrange(len(t) + 1), list(lab[0]))
+        elif kind == "unknown":
             t.insert(pos, [UNKNOWN_ATTR, "x", "01"])
         elif kind == "readonly":
             t.insert(pos, A_bool(r.choice([K.CKA_LOCAL, K.CKA_ALWAYS_SENSITIVE, K.CKA_NEVER_EXTRACTABLE]), True) if r.random() < 0.7 else A_ulong(K.CKA_KEY_GEN_MECHANISM, K.CKM_AES_KEY_GEN))
